@@ -403,6 +403,11 @@ type LemmaSpec struct {
 	Ensures  []*Clause
 	Props    []string
 	Theory   string
+	// proof by well-founded induction: each Induct entry is an argument tuple at which the lemma itself may be assumed,
+	// provided Decreases (a natural-number measure over the parameters) is smaller there
+	Induct    [][]*CExpr
+	Decreases *CExpr
+	Uses      []*CExpr // applications of other (separately proved) lemmas: name(args)
 }
 
 type UninterpDef struct {
@@ -599,7 +604,33 @@ func ParseSpecLines(pkg, file string, lines []string, lineNos []int) (*SpecFile,
 				return nil, err
 			}
 			curL.Invariants = append(curL.Invariants, c)
+		case "use":
+			if curLem == nil {
+				return nil, errf(n, "use outside lemma")
+			}
+			app, err := ParseCExpr(rest)
+			if err != nil || app.Kind != "call" {
+				return nil, errf(n, "use expects lemma(args)")
+			}
+			curLem.Uses = append(curLem.Uses, app)
+		case "induct":
+			if curLem == nil {
+				return nil, errf(n, "induct outside lemma")
+			}
+			tuple, err := ParseCExpr("tuple(" + rest + ")")
+			if err != nil {
+				return nil, errf(n, "%v", err)
+			}
+			curLem.Induct = append(curLem.Induct, tuple.Args[1:])
 		case "decreases":
+			if curLem != nil && curL == nil {
+				e, err := ParseCExpr(rest)
+				if err != nil {
+					return nil, errf(n, "%v", err)
+				}
+				curLem.Decreases = e
+				break
+			}
 			if curL == nil {
 				return nil, errf(n, "decreases outside loop")
 			}
